@@ -501,11 +501,11 @@ def _count(conds):
          canaries=['canary.no_extras', 'canary.counts_everything', 'canary.keeps_all'],
          trusted=['progression.HandlerState by contract G1: purpose (None or a name), success, failure, finished <=> success or failure',
                   'dict/set/list comprehension semantics of CPython on real containers of 0..3 entries'],
-         assumes=['G7 is proved for 0..3 handler states with purposes over {None, create, update, resume} (plain strings as loaded from '
+         assumes=['G7 is proved for 0..2 (extras, counts) / 0..3 (without_successes) handler states with purposes over {None, create, update, resume} (plain strings as loaded from '
                   'storage, the state purpose also as the causes.Reason member), arbitrary success/failure flags'])
 def G7(vc):
     """
-    progression.State over 0..3 arbitrary handler states and an arbitrary current purpose:
+    progression.State over 0..2 (without_successes: 0..3) arbitrary handler states and an arbitrary current purpose:
       extras_keys     extras has a key p  <=>  some handler state carries the purpose p, p is not None and p != the state's purpose;
       extras_counts   extras[p] == (number of states with purpose p and success, ... and failure, ... and not finished);
       counts_exact    counts == the same three numbers over the states that belong to the current purpose: all of them if the
@@ -520,14 +520,14 @@ def G7(vc):
 
     class St(progression.State):
         pass
-    n = vc.nondet(4, 'entries')
+    which = vc.nondet(3, 'extras | counts | without_successes')
+    n = vc.nondet(4 if which == 2 else 3, 'entries')
     names = [None, 'create', 'update', 'resume']
     entries = {}
     for i in range(n):
         success, failure = vc.bool(f'h{i}.success'), vc.bool(f'h{i}.failure')
         entries[f'h{i}'] = Opaque(f'hs-h{i}', purpose=vc.fin(f'h{i}.purpose', names), success=success, failure=failure,
                                   finished=Or(success, failure))
-    which = vc.nondet(3, 'extras | counts | without_successes')
     own = resolve(vc.fin('state.purpose', [None, 'create', causes.Reason.UPDATE]))
     basetime = Opaque('basetime')
     st = St(entries, basetime=basetime, purpose=own)
